@@ -875,13 +875,11 @@ func (e *SpecEnv) callExpr(n *ast.CallExpr) (SV, types.Type) {
 		case "allocated":
 			v, t := e.eval(n.Args[0])
 			tm, _ := e.scalar(v, t)
-			al := c.heapGet(e.st, "alloc", SArr(SInt, SBool))
-			return Sc{Select(al, tm, SBool)}, tBool
+			return Sc{c.isAllocated(e.st, tm)}, tBool
 		case "fresh":
 			v, t := e.eval(n.Args[0])
 			tm, _ := e.scalar(v, t)
-			al := c.heapGetAt(e.old, "alloc", SArr(SInt, SBool))
-			return Sc{And(Not(Eq(tm, IntLit(0))), Not(Select(al, tm, SBool)))}, tBool
+			return Sc{And(App(SBool, ">", tm, IntLit(0)), Not(c.isAllocated(e.old, tm)))}, tBool
 		case "has":
 			// has(m, k): key k is in map m
 			mv, mt := e.eval(n.Args[0])
